@@ -151,7 +151,8 @@ Search::Search(const Position& position, const Limits& limits,
     }
     else if (limits.depth != 0)
     {
-        _search_depth = limits.depth;
+        // the per-iteration arrays are sized for MAX_DEPTH iterations
+        _search_depth = std::min(limits.depth, MAX_DEPTH);
         _search_time = INFINITE_DURATION;
     }
     else if (limits.movetime != 0)
